@@ -15,12 +15,50 @@ nontrivial = poolcases.nontrivial
 distribution = poolcases.distribution
 
 
+def extra(tier, rng, build_cache, known):
+    """'From any number of threads': several plain threads submit to ONE pool at the same time (the way
+    user threads submit to an event loop) while nobody schedules; then the pool is drained and every
+    task's executions are counted. A lost or doubled task is the recorded finding `ring_multi_producer`
+    (the local ring is a single-producer structure); it needs the race to hit, so a run may not show it."""
+    from .. import core
+    key = ((), False)
+    if key not in build_cache:
+        build_cache[key], _ = core.build_harness((), False)
+    rounds = {"quick": 24, "thorough": 200, "search": 60}[tier]
+    cases = [{"id": i, "clock": "0", "pools": [], "origin": "extra", "kind": "race_submit",
+              "ops": [{"op": "race_submit", "threads": rng.choice([4, 6, 8]), "per": rng.choice([30, 60])}]}
+             for i in range(rounds)]
+    res = core.run_harness(build_cache[key], AREA, cases, isolate=True, timeout_ms=40000, jobs=4)
+    hit, viol, conclusive = [], [], 0
+    for c in cases:
+        r = res[c["id"]]
+        v = r[0].get("race_submit") if r and isinstance(r[0], dict) else None
+        if not v:
+            continue
+        conclusive += 1
+        if v["lost"] or v["dup"] or v["once"] != v["submitted"] or v["accepted"] != v["submitted"]:
+            hit.append((c, r, v))
+    found = []
+    if hit:
+        k = [k for k in known if k.get("defect") == "ring_multi_producer" and k.get("status") == "known"]
+        if k:
+            found = k
+        else:
+            c, r, v = hit[0]
+            viol.append({"case": c, "obs": r, "tags": ["ring_multi_producer"],
+                         "note": "concurrent submit_task calls on one pool: %d of %d tasks never ran, %d ran twice"
+                                 % (v["lost"], v["submitted"], v["dup"])})
+    return {"info": {"race_submit_rounds": conclusive, "race_submit_rounds_with_loss": len(hit),
+                     "race_submit_tasks": sum(c["ops"][0]["threads"] * c["ops"][0]["per"] for c in cases)},
+            "violations": viol, "known_reproduced": found}
+
+
 def gen(rng, tier):
     n = {"quick": 120, "thorough": 1500, "search": 600}[tier]
     return [poolcases.gen_case(rng, npools=1 if i % 3 else 2) for i in range(n)]
 
 
-PINNED = ['C01_refuted_stolen_worker_wedges_pool', 'C01_single_pool', 'C01_no_call_diverges', 'C01_result_is_own', 'C01_single_pool_no_defect']
-LEVEL_TEXT = "Executable Gallina model of CoroutinePool (submit, scheduling pass with worker growth, worker loop, task run, results, cancel, clean, stop) and a model-independent oracle over observed histories: a task starts at most once and only if accepted, finishes at most once, after a pass that was not cut by its deadline nothing accepted is stranded (whatever has not started is waiting for a worker slot, whatever started is finished, cancelled or legitimately parked), no pass fails or diverges. Theorem over ALL well-formed single-pool histories: the oracle accepts the model's own run, and no pass or stop of such a history diverges (termination of the worker loop, the scheduling pass and the stop loop proved by a decreasing potential); stored results are the task's own outcome (body_outcome) or the cancel/stop error, after every prefix; with one pool the two-pool defects cannot arise (no premise). With two pools on the process-wide queues the property is REFUTED by a theorem with a concrete witness (a stolen worker wedges the thief's pass), reproduced on the real code as a recorded finding. Tied to /repo by running the same histories on real pools (one per child process, virtual clock) and comparing every observation with the model's inside Coq."
+PINNED = ['C01_refuted_stolen_worker_wedges_pool', 'C01_single_pool', 'C01_no_call_diverges', 'C01_result_is_own', 'C01_single_pool_no_defect', 'C01_ring_exclusive_pushes_are_kept', 'C01_ring_single_producer', 'C01_refuted_ring_multi_producer']
+LEVEL_TEXT = "Executable Gallina model of CoroutinePool (submit, scheduling pass with worker growth, worker loop, task run, results, cancel, clean, stop) and a model-independent oracle over observed histories: a task starts at most once and only if accepted, finishes at most once, after a pass that was not cut by its deadline nothing accepted is stranded (whatever has not started is waiting for a worker slot, whatever started is finished, cancelled or legitimately parked), no pass fails or diverges. Theorem over ALL well-formed single-pool histories: the oracle accepts the model's own run, and no pass or stop of such a history diverges (termination of the worker loop, the scheduling pass and the stop loop proved by a decreasing potential); stored results are the task's own outcome (body_outcome) or the cancel/stop error, after every prefix; with one pool the two-pool defects cannot arise (no premise). Concurrent submitters: a small-step model of the local ring's producer side (st3 push: load tail, write slot, publish) with a theorem for any number of producers and every exclusive schedule (nothing lost, order kept) and a REFUTATION for two concurrent producers, reproduced on the real pool by racing submit_task calls (recorded finding ring_multi_producer). With two pools on the process-wide queues the property is REFUTED by a theorem with a concrete witness (a stolen worker wedges the thief's pass), reproduced on the real code as a recorded finding. Tied to /repo by running the same histories on real pools (one per child process, virtual clock) and comparing every observation with the model's inside Coq."
 LEVEL_NOTE = "Trusted: Coq kernel + vm_compute; hand transcription of co_pool/mod.rs, task.rs and the parts of scheduler.rs it uses (Sched/Pool.v over Sched/Sched.v, Coroutine/Co.v, Queue/OWS.v), validated on the sampled histories only; one scheduling thread at a time (the pool's scheduling half is !Sync), virtual clock (hooks H1/H2), DashMap/DashSet as association lists, process-global task/coroutine queues and cancel sets modelled as shared state of all pools. The single-pool theorems assume wf_pool1: ONE pool with min_size 0, keep_alive_time 0, max_size >= 1, operations naming submitted tasks, task bodies that keep the coroutine API contract (no self-cancel, syscall states well bracketed), clock steps not below the model clock; the evidence counts how many generated histories satisfy it (tag wf_pool1). Histories with two pools, or with keep-alive/min-size (keepalive_stop family), are covered by the correspondence and the oracle only. No axioms (every theorem closed under the global context)."
 TECHNIQUE = 'Coq proof (simulation invariant over all histories of a Gallina pool model; finite-state closure lifted to all schedules for the wait/notify and signal protocols) + differential correspondence inside Coq + forced real-thread schedules through cfg-guarded pause points'
